@@ -46,7 +46,12 @@ _SHAPE = (30, 9, 9)
 
 def _tomo(t):
     z = np.arange(_SHAPE[0], dtype=np.float32)[:, None, None]
-    return (100.0 * (t + 1) + z + np.zeros(_SHAPE, dtype=np.float32)).astype(np.float32)
+    a = (100.0 * (t + 1) + z + np.zeros(_SHAPE, dtype=np.float32)).astype(np.float32)
+    if t % 3 == 1:
+        # batches hold numpy and dask tomograms side by side
+        import dask.array as da
+        return da.from_array(a, chunks=tuple(max(1, s // 2 + 1) for s in _SHAPE))
+    return a
 
 
 def _decode(val):
